@@ -74,12 +74,33 @@ def _matches(flt, meta):
     return True
 
 
+def _words(alpha, maxlen):
+    out = list(alpha)
+    if maxlen >= 2:
+        out += [a + b for a in alpha for b in alpha]
+    return out
+
+
+def _words_ok(c1, c2, c3, q):
+    """category texts come from the finite word list over the tier's alphabet; texts the shard fixes (or that the bound
+    on the number of recordings leaves unused) are not constrained at all, so the solver does not enumerate them"""
+    words = _words(B('ALPHA'), B('CL'))
+    ok = True
+    if ctx.S('cats') is None:
+        ok = ok and c1 in words and c2 in words
+        if ctx.BOUNDS.get('N', 2) >= 3:
+            ok = ok and c3 in words
+    if ctx.S('q') is None:
+        ok = ok and q in words
+    return ok
+
+
 def lookup(c1: str, c2: str, c3: str, q: str, k1: int, k2: int, k3: int, i1: int, i2: int, inc1: int, inc2: int,
            limit: int, n: int) -> bool:
     """
-    pre: all(1 <= len(c) <= B('CL') and all(ch in B('ALPHA') for ch in c) for c in (c1, c2, c3, q))
+    pre: _words_ok(c1, c2, c3, q)
     pre: all(0 <= k < 5 for k in (k1, k2, k3)) and 0 <= inc1 <= 3 and 0 <= inc2 <= 3
-    pre: -1 <= limit <= B('LIM') and 1 <= n <= B('N')
+    pre: -1 <= limit <= B('LIM') and B('NMIN') <= n <= B('N')
     post: _
     """
     from playback.tape_recorder import TapeRecorder
@@ -90,6 +111,18 @@ def lookup(c1: str, c2: str, c3: str, q: str, k1: int, k2: int, k3: int, i1: int
     rnd = bool(ctx.S('random'))
     n = ctx.pick(n, range(1, B('N') + 1))
     limit = ctx.pick(limit, range(-1, B('LIM') + 1))
+    # a shard may fix the query text and/or the saved categories (the other dimension stays symbolic); metadata
+    # dimensions that the shard's filter cannot observe are pinned (same run as any other value)
+    if ctx.S('q') is not None:
+        q = ctx.S('q')
+    if ctx.S('cats') is not None:
+        c1, c2, c3 = ctx.S('cats')
+    if fkind in ('none', 'default-skip-incomplete'):
+        k1 = k2 = k3 = 0
+    if fkind in ('none', 'flag-true', 'flag-any-of', 'flag-gt'):
+        inc1 = inc2 = 0
+    if fkind in ('flag-true', 'flag-any-of', 'two-keys', 'default-skip-incomplete', 'none'):
+        i1 = i2 = 5
     lim = None if limit < 0 else limit
     r = rigm.build(kind if kind != 's3-noprefix' else 's3')
     cas = r.cassette
@@ -100,7 +133,11 @@ def lookup(c1: str, c2: str, c3: str, q: str, k1: int, k2: int, k3: int, i1: int
         cas._recordings = AssocDict()
     cats = [c1, c2, c3][:n]
     fk = [MKINDS[ctx.pick(k, range(5))] for k in (k1, k2, k3)][:n]
-    ik = [['absent', 'none', 'false', 'true'][ctx.pick(x, range(4))] for x in (inc1, inc2, 0)][:n]
+    if ctx.S('cats') is None and fkind == 'default-skip-incomplete':
+        # symbolic categories x default lookup: one recording complete-or-incomplete, the others unflagged
+        ik = ['true' if inc1 >= 2 else 'absent', 'absent', 'absent'][:n]
+    else:
+        ik = [['absent', 'none', 'false', 'true'][ctx.pick(x, range(4))] for x in (inc1, inc2, 0)][:n]
     saved = []
     for c, f, i, inc in zip(cats, fk, (i1, i2, 7), ik):
         rec = cas.create_new_recording(c)
@@ -130,12 +167,14 @@ def lookup(c1: str, c2: str, c3: str, q: str, k1: int, k2: int, k3: int, i1: int
 
 def metadata_listing(c1: str, c2: str, q: str, i1: int, i2: int) -> bool:
     """
-    pre: all(1 <= len(c) <= B('CL') and all(ch in B('ALPHA') for ch in c) for c in (c1, c2, q))
+    pre: _words_ok(c1, c2, 'a', q)
     post: _
     """
     # iter_recordings_metadata yields the metadata of exactly the listed ids
     ctx.begin()
     kind = ctx.S('cassette')
+    if ctx.S('q') is not None:
+        q = ctx.S('q')
     r = rigm.build(kind)
     cas = r.cassette
     if kind == 'mem' and not ctx.REAL:
@@ -155,21 +194,30 @@ def metadata_listing(c1: str, c2: str, q: str, i1: int, i2: int) -> bool:
 
 
 _CASS = ['mem', 'file', 's3', 's3-noprefix']
-_QS = [{'cassette': c, 'filter': f} for c in _CASS for f in ('none', 'default-skip-incomplete', 'flag-true')] + \
-      [{'cassette': 'mem', 'filter': f} for f in ('flag-any-of', 'flag-gt')] + \
-      [{'cassette': c, 'filter': 'none', 'random': True} for c in ('mem', 's3')]
-_TS = [{'cassette': c, 'filter': f, 'random': rd} for c in _CASS
-       for f in ('none', 'default-skip-incomplete', 'flag-true', 'flag-any-of', 'flag-gt', 'two-keys') for rd in (False, True)]
-_W = {'cassette': 'file', 'filter': 'flag-true'}
+_Q = ['a', 'a_', '_a']
+_FIXCATS = ['a', 'a', 'a_']
+# quick: (i) symbolic saved categories against a fixed query text, no filter / default lookup, every cassette;
+#        (ii) fixed categories, symbolic metadata + filter kinds, every cassette
+_QS = [{'cassette': c, 'filter': f, 'q': q} for c in _CASS for f in ('none',) for q in _Q] + \
+      [{'cassette': c, 'filter': 'default-skip-incomplete', 'q': 'a'} for c in _CASS] + \
+      [{'cassette': c, 'filter': f, 'cats': _FIXCATS, 'q': 'a'} for c in _CASS for f in ('default-skip-incomplete', 'flag-true')] + \
+      [{'cassette': 'mem', 'filter': f, 'cats': _FIXCATS, 'q': 'a'} for f in ('flag-any-of', 'flag-gt', 'two-keys')] + \
+      [{'cassette': c, 'filter': 'none', 'random': True, 'q': 'a'} for c in ('mem', 's3')]
+_TS = [{'cassette': c, 'filter': f, 'random': rd, 'q': q} for c in _CASS for f in ('none', 'default-skip-incomplete')
+       for rd in (False, True) for q in ('a', 'b', 'a_', '_a', 'ab', '_')] + \
+      [{'cassette': c, 'filter': f, 'cats': _FIXCATS, 'q': 'a', 'random': rd} for c in _CASS
+       for f in ('default-skip-incomplete', 'flag-true', 'flag-any-of', 'flag-gt', 'two-keys') for rd in (False, True)]
+_W = {'cassette': 'file', 'filter': 'flag-true', 'cats': _FIXCATS, 'q': 'a'}
 CONDITIONS = [
     {'fn': 'lookup', 'nontrivial': 'some-match-some-not',
-     'what': 'saved recordings with symbolic category texts / metadata vs a symbolic query; sharded by (cassette, filter kind)',
-     'tiers': {'quick': {'bounds': {'CL': 2, 'ALPHA': ['a', '_'], 'LIM': 2, 'N': 2}, 'timeout': 600, 'shards': _QS, 'witness_shard': _W},
-               'thorough': {'bounds': {'CL': 2, 'ALPHA': ['a', 'b', '_'], 'LIM': 3, 'N': 3}, 'timeout': 6000, 'shards': _TS, 'witness_shard': _W}}},
+     'what': 'saved recordings with symbolic category texts / metadata vs a query; sharded by (cassette, filter kind, query text '
+             'or fixed categories)',
+     'tiers': {'quick': {'bounds': {'CL': 2, 'ALPHA': ['a', '_'], 'LIM': 1, 'N': 2, 'NMIN': 2}, 'timeout': 600, 'shards': _QS, 'witness_shard': _W},
+               'thorough': {'bounds': {'CL': 2, 'ALPHA': ['a', 'b', '_'], 'LIM': 3, 'N': 3, 'NMIN': 1}, 'timeout': 6000, 'shards': _TS, 'witness_shard': _W}}},
     {'fn': 'metadata_listing', 'nontrivial': 'listed',
      'what': 'iter_recordings_metadata returns the metadata of exactly the listed recordings',
-     'tiers': {'quick': {'bounds': {'CL': 2, 'ALPHA': ['a', '_']}, 'timeout': 300, 'shards': [{'cassette': c} for c in ('mem', 'file', 's3')],
-                         'witness_shard': {'cassette': 'mem'}},
+     'tiers': {'quick': {'bounds': {'CL': 2, 'ALPHA': ['a', '_']}, 'timeout': 600, 'shards': [{'cassette': c, 'q': 'a'} for c in ('mem', 'file', 's3')],
+                         'witness_shard': {'cassette': 'mem', 'q': 'a'}},
                'thorough': {'bounds': {'CL': 2, 'ALPHA': ['a', 'b', '_']}, 'timeout': 3000,
                             'shards': [{'cassette': c} for c in ('mem', 'file', 's3')], 'witness_shard': {'cassette': 'mem'}}}},
 ]
